@@ -274,7 +274,15 @@ func NewRig(cfg CacheCfg, x *Exec) *Rig {
 		r.Counter = stats.NewCounter()
 		o.StatsRecorder = r.Counter
 	}
-	r.C = otter.Must(o)
+	if x != nil {
+		c, err := otter.VerifNew(o)
+		if err != nil {
+			panic(err)
+		}
+		r.C = c
+	} else {
+		r.C = otter.Must(o)
+	}
 	return r
 }
 
@@ -303,8 +311,15 @@ func (c *customExpiry) ExpireAfterRead(e otter.Entry[int, int]) time.Duration {
 	return c.pick("read", e, int64(e.ExpiresAfter()))
 }
 
-// Close stops the cache's goroutines (native).
-func (r *Rig) Close() { r.C.StopAllGoroutines() }
+// Close stops the cache's goroutines (native) and breaks the reference cycle
+// cache -> handlers -> rig -> *Cache that would keep runtime.AddCleanup from ever
+// releasing the cache (its argument must not reach the watched pointer).
+func (r *Rig) Close() {
+	if r.C != nil {
+		r.C.StopAllGoroutines()
+		r.C = nil
+	}
+}
 
 // RunDeferred runs queued executor tasks (deferred executor), including tasks they enqueue.
 func (r *Rig) RunDeferred(max int) int {
